@@ -155,7 +155,7 @@ MergeRoot(l, r, cfg) ==
   ELSE IF r.k = "seq" THEN
     (IF l.k = "seq" THEN MergeLists(l, r, cfg)
      ELSE IF l.k = "set" THEN
-        (IF \E j \in 1..Len(r.kids) : r.kids[j].k # "s" THEN MInfo(l)      \* unhashable members: silent corner
+        (IF \E j \in 1..Len(r.kids) : r.kids[j].k # "s" THEN MErr          \* complex elements cannot be Set members
          ELSE MergeSets(l, [NewCont("set") EXCEPT !.kids = DedupT(r.kids)], cfg))
      ELSE MErr)
   ELSE IF r.k = "set" THEN
@@ -170,4 +170,87 @@ MergeRoot(l, r, cfg) ==
         (IF cfg.sets = "unique" THEN MergeSets(l, [NewCont("set") EXCEPT !.kids = <<r>>], cfg) ELSE MInfo(l))
      ELSE IF l.k = "map" THEN MErr
      ELSE MInfo(l))                             \* scalar into scalar at the root: silent corner
+
+(***************************************************************************)
+(* Anchor conflicts (property C10): Merger._resolve_anchor_conflicts       *)
+(* (merger.py:518-612) with Anchors.rename_anchor / replace_anchor         *)
+(* (common/anchors.py:44-143), for scalar anchors.                         *)
+(*   stop   -> merge error when a name has different values on both sides  *)
+(*   left   -> every right-hand node of that name takes the left value     *)
+(*   right  -> every left-hand node of that name takes the right value     *)
+(*   rename -> the right-hand name becomes a fresh one at its definition   *)
+(*             and all of its aliases                                      *)
+(***************************************************************************)
+RECURSIVE NodesOfT(_)
+NodesOfT(tr) == <<tr>> \o Flatten([j \in 1..Len(tr.kids) |-> NodesOfT(tr.kids[j])])
+AnchorNames(tr) == {NodesOfT(tr)[j].anchor : j \in 1..Len(NodesOfT(tr))} \ {""}
+AnchorNode(tr, a) == LET ns == NodesOfT(tr) IN ns[CHOOSE j \in 1..Len(ns) : ns[j].anchor = a /\ \A x \in 1..Len(ns) : ns[x].anchor = a => j <= x]
+RECURSIVE SetAnchorVal(_, _, _, _)
+SetAnchorVal(tr, a, t, v) ==
+  IF tr.k = "s" THEN (IF tr.anchor = a THEN [tr EXCEPT !.t = t, !.v = v] ELSE tr)
+  ELSE [tr EXCEPT !.kids = [j \in 1..Len(tr.kids) |-> SetAnchorVal(tr.kids[j], a, t, v)]]
+RECURSIVE RenameAnchorT(_, _, _)
+RenameAnchorT(tr, a, b) ==
+  [tr EXCEPT !.anchor = IF @ = a THEN b ELSE @, !.kids = [j \in 1..Len(tr.kids) |-> RenameAnchorT(tr.kids[j], a, b)]]
+RECURSIVE UniqueName(_, _, _)
+UniqueName(a, known, aid) == IF a \notin known THEN a ELSE UniqueName(a \o "_" \o NatStr(aid), known, aid + 1)
+ConflictNames(l, r) == {a \in AnchorNames(l) \cap AnchorNames(r) : ~TEq(AnchorNode(l, a), AnchorNode(r, a))}
+
+RECURSIVE FoldNames(_, _, _, _)
+FoldNames(names, tr, other, mode) ==   \* apply the resolution for every conflicting name (names: a set)
+  IF names = {} THEN tr
+  ELSE LET a == CHOOSE x \in names : TRUE IN
+       FoldNames(names \ {a},
+                 IF mode = "rename" THEN RenameAnchorT(tr, a, UniqueName(a, AnchorNames(tr) \cup AnchorNames(other), 1))
+                 ELSE SetAnchorVal(tr, a, AnchorNode(other, a).t, AnchorNode(other, a).v),
+                 other, mode)
+
+\* result: [ok, l, r]
+ResolveAnchors(l, r, mode) ==
+  LET cn == ConflictNames(l, r) IN
+  IF cn = {} THEN [ok |-> TRUE, l |-> l, r |-> r]
+  ELSE IF mode = "stop" THEN [ok |-> FALSE, l |-> l, r |-> r]
+  ELSE IF mode = "left" THEN [ok |-> TRUE, l |-> l, r |-> FoldNames(cn, r, l, "left")]
+  ELSE IF mode = "right" THEN [ok |-> TRUE, l |-> FoldNames(cn, l, r, "right"), r |-> r]
+  ELSE [ok |-> TRUE, l |-> l,
+        r |-> LET known == AnchorNames(l) \cup AnchorNames(r)
+                  RECURSIVE Ren(_, _)
+                  Ren(names, tr) == IF names = {} THEN tr ELSE
+                     LET a == CHOOSE x \in names : TRUE IN Ren(names \ {a}, RenameAnchorT(tr, a, UniqueName(a, known, 1)))
+              IN Ren(cn, r)]
+
+MergeDocs(l, r, cfg, amode) ==
+  IF IsNullT(r) THEN MOK(l)
+  ELSE IF IsNullT(l) THEN MOK(r)
+  ELSE LET ra == ResolveAnchors(l, r, amode) IN
+       IF ~ra.ok THEN MErr ELSE MergeRoot(ra.l, ra.r, cfg)
+
+(***************************************************************************)
+(* A merge aimed at a path (property C11): merger.py:795-890.  Targets are *)
+(* what an optional-match query of the path finds in the left document;    *)
+(* each becomes the policy-defined merge of its content with the           *)
+(* right-hand document; a missing straight path is created to hold it; a   *)
+(* path that matches nothing and cannot be created is a merge error.       *)
+(***************************************************************************)
+RECURSIVE MergeTargets(_, _, _, _, _)
+MergeTargets(d, ids, j, r, cfg) ==   \* fold over the targets (outermost first; ids are pre-order)
+  IF j > Len(ids) THEN [ok |-> TRUE, doc |-> d, info |-> FALSE]
+  ELSE LET rest == MergeTargets(d, ids, j + 1, r, cfg) IN      \* later (deeper / following) targets first: ids stay valid
+       IF ~rest.ok THEN rest
+       ELSE LET cur == TreeOf(rest.doc, ids[j])
+                m == IF IsNullT(cur) THEN MInfo(cur) ELSE MergeRoot(cur, r, cfg) IN
+            IF ~m.ok THEN [ok |-> FALSE, doc |-> d, info |-> m.info]
+            ELSE [ok |-> TRUE, doc |-> TabOf(TreeReplace(rest.doc, Root, ids[j], m.tr)), info |-> rest.info \/ m.info]
+
+MergeAt(l, r, segs, cfg) ==   \* l: node table, r: tree; result [ok, doc, info]
+  LET sel == Sel(l, segs) ids == FlatIds(sel.res) IN
+  IF IsNullT(r) THEN [ok |-> TRUE, doc |-> l, info |-> FALSE]
+  ELSE IF sel.err # "" THEN [ok |-> FALSE, doc |-> l, info |-> sel.info]
+  ELSE IF Len(ids) > 0 THEN
+    (IF sel.dead \/ (\E j \in 1..Len(sel.res) : IsVirt(sel.res[j])) \/ (\E a, b \in 1..Len(ids) : a # b /\ IsUnder(l, ids[a], ids[b]))
+     THEN [ok |-> TRUE, doc |-> l, info |-> TRUE]          \* dead branches / virtual / nested targets: silent corners
+     ELSE LET mt == MergeTargets(l, ids, 1, r, cfg) IN [mt EXCEPT !.info = @ \/ sel.info])
+  ELSE LET c == CreatePathT(l, segs, r) IN
+       IF c.ok THEN [ok |-> TRUE, doc |-> c.doc, info |-> sel.info]
+       ELSE [ok |-> FALSE, doc |-> l, info |-> c.why \notin {"yperr", "notstraight"}]
 =============================================================================
